@@ -113,9 +113,9 @@ class PrettyPrintConfig:
                 not self.outputs or
                 (starred == '/cells/*/outputs/*/execution_count' and
                  not self.details))
-        # Can check against '/cells/*/' since we've processed all other
-        # sub-keys that we know about above.
-        if starred.startswith('/cells/*/'):
+        # (only the execution count: a change of e.g. the cell type is
+        # not a detail, and the differ reports it whatever is ignored)
+        if starred.startswith('/cells/*/execution_count'):
             return not self.details
         if starred.startswith('/nbformat'):
             return not self.details
